@@ -193,6 +193,9 @@ class Harness:
         kw = {'init_state': case.get('init_state', 0)}
         if kind == 'remote':
             kw['host'] = self.get_server().addr
+        if pers and case.get('consumer') == 'poolstyle':
+            from pyworkers.utils import Pipe
+            kw['results_pipe'] = Pipe()          # what Pool.add_worker passes: a real pipe that the pool multiplexes
         if pers:
             target = T.p_item_raise3 if case.get('ending') == 'exc' else T.p_item
             args = (mpath,)
@@ -232,6 +235,8 @@ class Harness:
         consumer = None
         if pers and case.get('consumer') == 'blocked':
             consumer = _Consumer(w, items)       # a consumer already blocked in next_result() when the fault happens
+        if pers and case.get('consumer') == 'poolstyle':
+            consumer = _PoolStyleConsumer(w, items)
         fault = case.get('fault', 'none')
         report = None
         term_ret = 'na'
@@ -628,6 +633,36 @@ class _Consumer:
         except BaseException:  # noqa
             again = 'raised'
         return {'got': list(self.got), 'end': self.end, 'again': again}
+
+
+class _PoolStyleConsumer:
+    """multiplexes the raw results endpoint like Pool.run: connection.wait + recv until the end marker or EOF"""
+
+    def __init__(self, w, items):
+        import multiprocessing.connection as mpc
+        self.got, self.end = [], None
+        ep = w.results_endpoint
+
+        def loop():
+            t0 = time.time()
+            while time.time() - t0 < 25:
+                try:
+                    if not mpc.wait([ep], 0.5):
+                        continue
+                    msg = ep.recv()
+                except (EOFError, OSError):
+                    self.end = 'ended'          # EOF
+                    return
+                if not msg[1]:
+                    self.end = 'ended'          # end-of-results message
+                    return
+                self.got.append(_item_of(msg[2], len(self.got) + 1))
+        self.t = threading.Thread(target=loop, daemon=True)
+        self.t.start()
+
+    def finish(self, w):
+        self.t.join(6)
+        return {'got': list(self.got), 'end': self.end or 'blocked', 'again': 'Empty' if self.end else 'na'}
 
 
 def _drain_unobserved(w, items):
